@@ -869,7 +869,7 @@ class RichSampler(Sampler):
     expressions in many syntactic forms"""
 
     EXTRA = {"VAR": 2, "MDEF": 2, "MASSIGN": 1, "SWI": 2, "TSW": 2, "FT": 1, "IIFE": 1, "CLO": 2, "RNG": 3, "YF": 2, "YX": 4, "IFI": 3, "ELSEBLK": 2, "GCH": 2,
-             "MCASE": 2, "TSWM": 2, "LDECL": 2, "COMMAOK": 2, "OPASSIGN": 2, "CHAN": 1, "EMPTY": 1, "FOR2": 2, "TAGLESS": 2, "FORNC": 2}
+             "MCASE": 2, "TSWM": 2, "LDECL": 2, "COMMAOK": 2, "OPASSIGN": 2, "CHAN": 1, "EMPTY": 1, "FOR2": 2, "TAGLESS": 2, "FORNC": 2, "YPOST": 2}
 
     def __init__(self, rng, weights=None, max_depth=4):
         super().__init__(rng, weights, max_depth)
@@ -895,7 +895,7 @@ class RichSampler(Sampler):
             return super().stmt(budget, ctr, loopvars, in_loop, in_switch, depth, scope)
         kinds = []
         for k, w in self.EXTRA.items():
-            if k in ("SWI", "TSW", "FT", "RNG", "IFI", "ELSEBLK", "GCH", "MCASE", "TSWM", "FOR2", "TAGLESS", "FORNC") and (depth >= self.max_depth or budget[0] < 2):
+            if k in ("SWI", "TSW", "FT", "RNG", "IFI", "ELSEBLK", "GCH", "MCASE", "TSWM", "FOR2", "TAGLESS", "FORNC", "YPOST") and (depth >= self.max_depth or budget[0] < 2):
                 continue
             if k in ("MASSIGN", "OPASSIGN") and not scope:
                 continue
@@ -955,6 +955,12 @@ class RichSampler(Sampler):
             v = self.fresh("iv")
             txt = ["if %s {" % ctr.guard()] + p_stmts(body, 1) + ["} else if %s := %s; %s > %s {" % (v, e, v, rng.choice(vals))] + p_stmts([("effv", 8, v)] + b2, 1) + ["}"]
             return [("rawif", "\n".join(txt), [body, [("effv", 8, v)] + b2])]
+        if k == "YPOST":
+            # loop whose post statement yields (or delegates); the body may continue / break
+            i = self.fresh("yp")
+            body = sub(True, False, loopvars + [i], sc=list(scope))
+            post = ("yield", "%s + %d" % (i, 100 + rng.randint(1, 9))) if rng.random() < 0.7 else ("yieldfrom", "H2(%s)" % i)
+            return [("decl", i, "0"), ("for", None, "%s < n" % i, post, [("inc", i)] + body)]
         if k == "TAGLESS":
             # tag-less switch (optionally with an initialiser): the clauses are conditions
             cases = [(ctr.guard(), sub(in_loop, True)) for _ in range(rng.randint(1, 2))]
@@ -1418,8 +1424,6 @@ class YFSampler(RichSampler):
             ctr.v += 1
             v = "i%d" % ctr.v
             body = self.body(budget, ctr, loopvars + [v], True, False, depth + 1, list(scope)) or [("eff", ctr.eff())]
-            # no continue in a loop with a yielding post (known finding F6)
-            body = strip_continue(body)
             return [("decl", v, "0"), ("for", ("yieldfrom", "H2(%s)" % v) if rng.random() < 0.4 else None, "%s < n" % v, ("yieldfrom", "H2(%s + 50)" % v), [("inc", v)] + body)]
         return super().stmt(budget, ctr, loopvars, in_loop, in_switch, depth, scope)
 
